@@ -133,7 +133,7 @@ static Bytes l4_bytes(const Req& q, bool reply, const Addr& src, const Addr& dst
     }
 }
 // extension header length in 8-byte units beyond the first: small ones and ones of 256 bytes and more (Hdr Ext Len >= 31)
-static size_t ext6_units(const Req& q) { static const uint16_t tab[8] = { 0, 1, 2, 1, 31, 32, 40, 120 }; return tab[(q.tos & 3) + ((q.tos & 8) ? 4 : 0)]; }
+static size_t ext6_units(const Req& q) { static const uint16_t tab[8] = { 0, 1, 2, 255, 31, 32, 40, 120 };   /* 255: the maximum, a 2048-byte header - larger than the 2048-byte receive buffer of send_recv, so those ops are judged through the direct matcher call only */ return tab[(q.tos & 3) + ((q.tos & 8) ? 4 : 0)]; }
 static Bytes l3_bytes(const Req& q, const Addr& src, const Addr& dst, uint8_t proto, const Bytes& l4, Rng& r, uint16_t ipid) {
     if (q.v6) {
         if (!q.ipopt) return ip6_bytes(src, dst, proto, l4, (uint8_t)r.range(1, 255));
@@ -181,7 +181,7 @@ struct SockEngine : Engine {
             bool bcast = !q.v6 && q.l4 != 7 && cfg.chance(0.1); if (bcast) { q.dst = Addr::v4(255, 255, 255, 255); for (int i = 0; i < 6; ++i) q.dmac.b[i] = 0xff; }
             const Addr ra = bcast ? Addr::v4(10, 0, 0, 77) : q.dst; Mac rm = q.dmac; if (bcast) rm = Mac::of(5);      // who answers
             q.ttl = (uint8_t)cfg.range(1, 255); q.tos = (uint8_t)(cfg.chance(0.3) ? cfg.next() : 0); q.ipid = (uint16_t)cfg.range(1, 65535); q.ipopt = cfg.chance(q.v6 ? 0.3 : 0.2); if (q.v6) q.tos = (uint8_t)(cfg.below(8) | (cfg.chance(0.3) ? 8 : 0));
-            q.sport = (uint16_t)cfg.range(1, 65535); q.dport = cfg.chance(0.3) ? 53 : (uint16_t)cfg.range(1, 65535); if (q.sport == q.dport) q.dport ^= 1;
+            q.sport = (uint16_t)cfg.range(1, 65535); q.dport = cfg.chance(0.3) ? 53 : (uint16_t)cfg.range(1, 65535); if (q.sport == q.dport) q.dport ^= 1; { Rng ep = root.fork(fmt("equalports%d", op).c_str()); if (ep.chance(0.08)) q.sport = q.dport; }   /* symmetric services (NTP 123<->123, IKE 500<->500, DNS between servers) use the same port on both sides */
             if (q.l4 == 7) { q.sport = 68; q.dport = 67; } if (q.l4 == 8) { q.sport = 546; q.dport = 547; }
             q.seq = (uint32_t)cfg.next(); q.ack = (uint32_t)cfg.next(); q.tcpflags = cfg.chance(0.6) ? TH_SYN : (TH_ACK | TH_PSH);
             q.payload = (q.l4 == 1) ? wl.bytes((size_t)cfg.range(1, 80)) : (q.l4 == 0 && !(q.tcpflags & TH_SYN) && cfg.chance(0.5)) ? wl.bytes((size_t)cfg.range(1, 40)) : (q.l4 == 3 || q.l4 == 6) ? wl.bytes((size_t)cfg.range(0, 48)) : Bytes();
@@ -226,7 +226,8 @@ struct SockEngine : Engine {
                     case 6: if (q.l4 >= 7) { s.pert = "dhcp-xid"; s.f = frame(ra, q.src, rm, q.smac, q.vid, q.dport, q.sport, pert16(cfg, q.id), q.seqn, -1, true); }
                             else if (q.l4 > 2) { s.pert = "icmp-type"; static const int wrong4[4] = { 8, 13, 17, 11 }; int ty = q.l4 == 6 ? (cfg.chance(0.5) ? 128 : 1) : wrong4[cfg.below(4)]; s.f = frame(ra, q.src, rm, q.smac, q.vid, q.dport, q.sport, q.id, q.seqn, ty, true); }
                             else if (q.l4 == 2) { s.pert = "dns-id"; s.f = frame(ra, q.src, rm, q.smac, q.vid, q.dport, q.sport, pert16(cfg, q.id), q.seqn, -1, true); }
-                            else { s.pert = "ports-not-swapped"; s.f = frame(ra, q.src, rm, q.smac, q.vid, q.sport, q.dport, q.id, q.seqn, -1, true); } break;
+                            else if (q.sport != q.dport) { s.pert = "ports-not-swapped"; s.f = frame(ra, q.src, rm, q.smac, q.vid, q.sport, q.dport, q.id, q.seqn, -1, true); }
+                            else { s.pert = "l4-dport"; s.f = frame(ra, q.src, rm, q.smac, q.vid, q.dport, pert16(cfg, q.sport), q.id, q.seqn, -1, true); } break;
                     case 7: { s.pert = "unrelated"; Addr x = other, y = q.v6 ? Addr::v6((const uint8_t*)"\x20\x01\x0d\xb8\0\0\0\0\0\0\0\0\0\0\0\x64") : Addr::v4(172, 16, 0, 100); s.f = frame(x, y, Mac::of(7), Mac::of(8), vid2, (uint16_t)cfg.next(), (uint16_t)cfg.next(), (uint16_t)cfg.next(), (uint16_t)cfg.next(), -1, cfg.chance(0.5)); break; }
                     case 8: case 9: if (q.v6) { s.pert = "unrelated"; s.f = frame(other, q.src, Mac::of(7), q.smac, q.vid, (uint16_t)cfg.next(), (uint16_t)cfg.next(), (uint16_t)cfg.next(), (uint16_t)cfg.next(), 1, true); }
                             else {   // ICMP destination unreachable quoting ANOTHER packet, sent to us by some router
@@ -354,6 +355,7 @@ struct SockEngine : Engine {
                         for (auto& o : objs) { try { (void)o->matches_response(view, (uint32_t)n); } catch (Tins::exception_base&) {} st.inc("chk.matcher_memory_safety"); }
                         free(buf); } }
             }
+            if (q.v6 && q.ipopt && ext6_units(q) == 255) { st.inc("probe.maximal_extension_header_direct_only"); continue; }
             // L3 sockets: a frame with a VLAN tag or cut inside the Ethernet header is not an IP datagram for us
             sim::g_sim_now_us = start; sim::g_sim_tick_us = 0; simnet::active = true;
             // arrivals are relative to the moment the request leaves
